@@ -45,7 +45,10 @@ func (c *azCases) add(sc azScenario, obs []azObs) {
 }
 func (c *azCases) write(res *Result, outDir, name string) {
 	prop := strings.TrimSuffix(strings.TrimPrefix(name, "Cases_"), ".v")
-	WriteShards(res, outDir, prop, "Base Term Expr Datalog Authz Corr", "", "authz_case", "authz_ok (fun _ _ => None)", c.lines, 400)
+	// every case is evaluated twice: by the S-level authorizer model and by the INDEX-level model
+	// (symbol tables threaded through evaluation, Model/DEval.v), which is proved to refine to it
+	WriteShards(res, outDir, prop, "Base Term Expr Datalog Authz DTerm Symbols Chain Wire Token Corr DEval CorrD", "", "authz_case",
+		"fun c => authz_ok (fun _ _ => None) c && authz_case_ok_D (fun _ _ => None) c", c.lines, 400)
 	res.ModelCases = len(c.lines)
 	res.CaseDescs = c.descs
 }
